@@ -147,6 +147,18 @@ where
             None => h.expect(false, "C05.many_scalars", &format!("the blind issuance flow failed for L = {}, M = {} with the production randomness", l, m), &[h.last()]),
         }
     }
+    // commitments to THOUSANDS of messages (beyond 2^11; thorough: beyond 2^12 and 2^13): prover-side and signer-side
+    // limits, if any, must agree -- what `commit` produces, `blind_sign` accepts
+    let huge: &[(usize, usize)] = if thorough { &[(1, 2100), (0, 4100), (1, 8200)] } else { &[(1, 2100)] };
+    for &(l, m) in huge {
+        let (sk, pk) = rand_keypair::<CS>(h);
+        let msgs = rand_msgs(h, l);
+        let cmsgs: Vec<Vec<u8>> = (0..m).map(|i| format!("c{}", i).into_bytes()).collect();
+        h.stat(&format!("C05.huge.L={}.M={}", l, m));
+        if honest_issue::<CS>(h, &sk, &pk, None, &msgs, &cmsgs, true).is_none() {
+            h.expect(false, "C05.huge", &format!("commit / blind_sign / verify_blind_sign failed for {} committed messages", m), &[h.last()]);
+        }
+    }
     // no commitment at all: blind_sign(None / empty) verifies with no committed messages and no blind
     for l in [0usize, 1, 3] {
         let msgs = rand_msgs(h, l);
@@ -409,6 +421,24 @@ where
         h1.push(9);
         vreject(h, "hdr", &pk, Some(&h1), &msgs, &cmsgs, Some(&run.blind));
         vreject(h, "other_pk", &pk2, hdr.as_deref(), &msgs, &cmsgs, Some(&run.blind));
+        // a signature issued WITHOUT a commitment verifies with no committed messages and no blind factor, and not
+        // with committed messages that were never signed (blind factor absent, zero-like, or the one of another run)
+        if let Some(bs) = blindsign::<CS>(h, &sk, &pk, None, hdr.as_deref(), Some(&msgs)).ok() {
+            let s0 = bs.bbsPlusBlindSignature().clone();
+            let v = verifyblind::<CS>(h, &pk, &s0, hdr.as_deref(), Some(&msgs), None, None);
+            h.expect(v.is_ok(), "C06.no_commitment_verify", "a blind signature issued without a commitment does not verify", &[h.last()]);
+            let extra = vec![b"never committed".to_vec()];
+            for (nm, cms, bl) in [
+                ("extra_committed_no_blind", Some(&extra[..]), None),
+                ("extra_committed_other_blind", Some(&extra[..]), Some(&run.blind)),
+                ("own_committed_no_blind", if m > 0 { Some(&cmsgs[..]) } else { None }, None),
+            ] {
+                if cms.is_none() { continue; }
+                h.stat(&format!("C06.vbs.{}", nm));
+                let v = verifyblind::<CS>(h, &pk, &s0, hdr.as_deref(), Some(&msgs), cms, bl);
+                h.expect(!v.is_ok(), &format!("C06.vbs_{}", nm), "verify_blind_sign accepted committed messages for a signature issued without a commitment", &[h.last()]);
+            }
+        }
         // plain verifier on a blind signature
         let v = verify::<CS>(h, &pk, &run.sig, hdr.as_deref(), Some(&[msgs.clone(), cmsgs.clone()].concat()));
         h.expect(!v.is_ok(), "C06.cross_iface", "blind signature verifies through the plain interface", &[h.last()]);
@@ -518,6 +548,56 @@ where
             ia.extend(dc.iter().map(|j| j + l + 1));
             let v = proofverify::<CS>(h, &pk, &pp, hdr.as_deref(), ph.as_deref(), Some(&[dm.clone(), dcm.clone()].concat()), Some(&ia));
             h.expect(!v.is_ok(), "C06.proof_cross_iface", "blind proof verifies through the plain interface", &[h.last()]);
+        }
+    }
+    // commitments around the power-of-two counts where limits and batched paths tend to start (M = 63, 64, 65;
+    // thorough also 127..129 and 255..257): the honest one is signed, the same octets with the last response
+    // or the challenge altered, one response dropped or added, and a made-up proof of that exact length on a
+    // point the prover does not control are all refused
+    {
+        let (sk, pk) = rand_keypair::<CS>(h);
+        let msgs = distinct_msgs(h, 2);
+        let hdr = rand_header(h);
+        let sizes: Vec<usize> = if thorough { vec![63, 64, 65, 127, 128, 129, 255, 256, 257] } else { vec![63, 64, 65] };
+        for m in sizes {
+            let cmsgs = rand_msgs(h, m);
+            h.stat(&format!("C06.sized.M={}", m));
+            let run = match honest_issue::<CS>(h, &sk, &pk, hdr.as_deref(), &msgs, &cmsgs, true) {
+                Some(r) => r,
+                None => {
+                    h.expect(false, "C06.sized_honest", &format!("honest commit / blind_sign / verify_blind_sign with {} committed messages failed", m), &[h.last()]);
+                    continue;
+                }
+            };
+            let n = run.cwp.len();
+            let mut cases: Vec<(&str, Vec<u8>)> = Vec::new();
+            let mut t = run.cwp.clone();
+            t[n - 33] ^= 1;
+            cases.push(("sized_last_response", t));
+            let mut t = run.cwp.clone();
+            t[n - 1] ^= 1;
+            cases.push(("sized_challenge", t));
+            let mut t = run.cwp[..n - 64].to_vec();
+            t.extend_from_slice(&run.cwp[n - 32..]);
+            cases.push(("sized_response_dropped", t));
+            let mut t = run.cwp[..n - 32].to_vec();
+            t.extend_from_slice(&rand_scalar_bytes(h));
+            t.extend_from_slice(&run.cwp[n - 32..]);
+            cases.push(("sized_response_added", t));
+            for pt in [bls12_381_plus::G1Affine::generator().to_compressed().to_vec(), run.cwp[..48].to_vec()] {
+                let mut t = pt;
+                for _ in 0..(m + 2) {
+                    t.extend_from_slice(&rand_scalar_bytes(h));
+                }
+                cases.push(("sized_made_up_proof", t));
+            }
+            for (class, cwp) in cases {
+                h.stat(&format!("C06.commit.{}", class));
+                let s = blindsign::<CS>(h, &sk, &pk, Some(&cwp), hdr.as_deref(), Some(&msgs));
+                let id = h.last();
+                h.expect(!s.is_panic(), "C06.sign_panic", "blind_sign panicked on a bad commitment", &[id]);
+                h.expect(!s.is_ok(), &format!("C06.{}", class), &format!("signer issued a blind signature for a bad commitment with {} responses", m), &[id]);
+            }
         }
     }
     let _ = rand_scalar_bytes(h);
